@@ -502,6 +502,10 @@ func ExpandTemplate(parts []gen.TmplPart, ts int64, line string, labels map[stri
 			}
 		case "regex_wrap":
 			sb.WriteString(regexWrapRe.ReplaceAllString(labels[t.A], "<$1>"))
+		case "regex_wrap_literal":
+			sb.WriteString(regexWrapRe.ReplaceAllLiteralString(labels[t.A], "<$1>"))
+		case "regex_count":
+			sb.WriteString(strconv.Itoa(len(regexCountRe.FindAllStringIndex(labels[t.A], -1))))
 		case "fail_unixToTime", "fail_regex":
 			return "", true
 		}
@@ -510,6 +514,7 @@ func ExpandTemplate(parts []gen.TmplPart, ts int64, line string, labels map[stri
 }
 
 var regexWrapRe = regexp.MustCompile("([a-z0-9])")
+var regexCountRe = regexp.MustCompile("[a-z0-9]+")
 
 // alignText is Loki's alignLeft / alignRight: the first (last) n characters of s when it is
 // longer, s padded with blanks on the right (left) to n characters when it is shorter; a
